@@ -159,7 +159,7 @@ def streams(prop, tier):
         return [Stream('C09mesh', 1200), Stream('C09mesh', 600, release=True), Stream('C09refine', 160, extra=['500', '300', '3.0']),
                 Stream('C09refine', 160, release=True, extra=['0', '2000', '6.0'])]
     if prop == 'C18':
-        if q: return [Stream('C18refine', 80, extra=['150', '60', '2.0']), Stream('C18refine', 32, release=True, extra=['150', '60', '2.0'])]
+        if q: return [Stream('C18refine', 92, extra=['150', '60', '2.0']), Stream('C18refine', 32, release=True, extra=['150', '60', '2.0'])]
         if tier == 'search': return [Stream('C18refine', 200, extra=['0', '2000', '3.0'])]
         return [Stream('C18refine', 200, extra=['500', '300', '3.0']), Stream('C18refine', 160, release=True, extra=['0', '2000', '6.0'])]
     return []
